@@ -43,8 +43,9 @@ Put(rec, n, v) == IF Has(rec, n) THEN [k \in 1..Len(rec) |-> IF rec[k].n = n THE
 IsText(v) == v.t \in {"s", "r"}
 
 \* ---- a regex operand ------------------------------------------------------------------------------------
-\* [src: "lit" "P" | "liti" "P"i | "flag" "(?i)P" | "field" the text held by field f of the current record, re, f]
-RX(src, re, f) == [src |-> src, re |-> re, f |-> f]
+\* [src: "lit" "P" | "liti" "P"i | "flag" "(?i)P" | "field" the text held by field f of the current record, re, f,
+\*  tx: the text of re (for the harness, which spells it)]
+RX(src, re, f) == [src |-> src, re |-> re, f |-> f, tx |-> Text(re)]
 RxCI(rx) == rx.src \in {"liti", "flag"}
 RxRe(rx, rec) == IF rx.src = "field" THEN Get(rec, rx.f).re ELSE rx.re
 RxOK(rx, rec) == rx.src = "field" => (Has(rec, rx.f) /\ Get(rec, rx.f).t = "r")
@@ -159,5 +160,19 @@ ValOK(want, got) == IF want.t = "m" THEN got.t = "m" /\ MXOK(want.m, got.m)
                     ELSE got.t = (IF want.t = "r" THEN "s" ELSE want.t) /\ got.s = want.s
 RecOK(want, got) == Len(want) = Len(got) /\ \A k \in 1..Len(want) : want[k].n = got[k].n /\ ValOK(want[k].v, got[k].v)
 OutOK(want, got) == Len(want) = Len(got) /\ \A k \in 1..Len(want) : RecOK(want[k], got[k])
+\* where the first difference is (for the report): <<record, field, part>>; part: "count" (number of records), "shape" (the
+\* field names of the record), "value", or for a strmatchx map "keys" / "text" / "index"
+MinOfSet(S) == CHOOSE v \in S : \A w \in S : v <= w
+PartOf(want, got) == IF want.t # "m" \/ got.t # "m" THEN "value"
+                     ELSE IF got.m.keys # want.m.keys THEN "keys"
+                     ELSE IF got.m.full # want.m.full \/ got.m.caps # want.m.caps THEN "text" ELSE "index"
+Diff(want, got) ==
+  IF Len(want) # Len(got) THEN <<"0", "0", "count">>
+  ELSE LET R == {k \in 1..Len(want) : ~RecOK(want[k], got[k])} IN
+       IF R = {} THEN <<"0", "0", "">>
+       ELSE LET k == MinOfSet(R) IN
+            IF Len(want[k]) # Len(got[k]) \/ \E j \in 1..Len(want[k]) : want[k][j].n # got[k][j].n THEN <<ToString(k), "0", "shape">>
+            ELSE LET j == MinOfSet({j \in 1..Len(want[k]) : ~ValOK(want[k][j].v, got[k][j].v)}) IN
+                 <<ToString(k), ToString(j), PartOf(want[k][j].v, got[k][j].v)>>
 Allowed(prog, out) == \E carry \in BOOLEAN : LET r == Run(prog, carry) IN r.u \/ OutOK(r.rs, out)
 =============================================================================
